@@ -24,6 +24,7 @@ func init() {
 			"no call path reaches (*Node).Execute except through the gated launch and the post-Wait handler runner (C01.single-launch)",
 			"Node.Execute invokes the executor's Run itself and returns after it, so the worker's `finished` is written after the command ended (C01.exec-awaited)",
 			"finished is written to a graph node only by the worker after its exec loop and under status==running; failed only under an error from setup/exec/teardown (C01.finish-writes)",
+			"the edge writer records every pair it is called with: a return that skips the adjacency updates is taken only under a hit in a set keyed by a composite of the two ids or by a text in which a non-digit separates them (C01.edge-every-pair)",
 		},
 		NotDec: []string{
 			"races on the status word between the loop, workers and Signal",
@@ -44,6 +45,7 @@ func runC01(e *Env) {
 	c01Gate(e, s)
 	c01ReadyTable(e, s, true)
 	c01Edges(e, s)
+	c01EdgeEveryPair(e, "C01.edge-every-pair")
 	c01FlipFirst(e, s)
 	c01RetryResetLate(e, s)
 	c03Handback(e, s, "C01.no-status-after-handback", false)
